@@ -31,6 +31,14 @@ def run(tier):
     progs = g.tagged("CASE")
     if len(progs) < 1000:
         raise vlib.ToolError("MC_Positions emitted only %d programs" % len(progs))
+    # three nesting levels (statement position [ expression position [ wrapper [ construct ] ] ]): one residue class of the product
+    stride = 211 if tier == "quick" else 13
+    gd = tlc("mc/MC_Positions", workers=4, timeout=1800, xmx="6g", env={"MODE": "deep", "STRIDE": str(stride), "OFFSET": str(rng.randrange(stride))})
+    tlc_ok(gd, "MC_Positions(deep)")
+    deep = gd.tagged("CASE")
+    if len(deep) < 500:
+        raise vlib.ToolError("MC_Positions(deep) emitted only %d programs" % len(deep))
+    progs = progs + deep
     orders = [ALL, list(reversed(ALL))] + [rng.sample(ALL, len(ALL)) for _ in range(2 if tier == "quick" else 12)]
     gens = ["retain_lines", "dense"] if tier == "quick" else ["retain_lines", "dense", "readable"]
     cases = []
@@ -84,7 +92,7 @@ def run(tier):
         "evaluations": len(cases), "distinct_nontrivial": len(set((c["src"], c["rules"]) for c in cases)),
         "rule": "program = construct x position (TLC enumeration of Positions.tla) ; pipeline = the rule targeting the construct, or all nine lowering rules in an order; non-trivial = the census of the targeted construct in the input is positive (%d cases)" % nontrivial,
         "samples": [{"rules": cases[0]["rules"], "src": cases[0]["src"]}, {"rules": cases[-1]["rules"], "src": cases[-1]["src"]}],
-        "programs": len(progs), "orders_of_all_rules": len(orders), "states": g.distinct + v.distinct, "transitions": g.generated + v.generated,
+        "programs": len(progs), "programs_with_three_nesting_levels": len(deep), "orders_of_all_rules": len(orders), "states": g.distinct + gd.distinct + v.distinct, "transitions": g.generated + gd.generated + v.generated,
         "inputs_rejected_by_reference_parser": rejected_in, "pipelines_that_failed": failed_rule, "exhaustive": tier == "thorough",
     })
     rep.assumptions += ["constructs are counted by the independent parser harness/luaparse (census); strict Lua 5.1 = its Lua51 dialect",
